@@ -522,7 +522,7 @@ class SyncWorld(World):
             r.done = True
             r.t_end = self.ticks()
             self._http_done(r)
-        self.hub.spawn(task, name='req%d' % rid)
+        r.task = self.hub.spawn(task, name='req%d' % rid)
         return rid
 
     def _http_done(self, r):
@@ -591,7 +591,7 @@ class SyncWorld(World):
                 r.exc = e
             r.done = True
             self._ws_req_done(r)
-        self.hub.spawn(task, name='wsreq%d' % rid)
+        r.task = self.hub.spawn(task, name='wsreq%d' % rid)
         return rid
 
     def _ws_req_done(self, r):
@@ -642,7 +642,7 @@ class SyncWorld(World):
                     raise
                 rec['exc'] = e
             rec['done'] = True
-        self.hub.spawn(task, name='api%s' % cid)
+        rec['task'] = self.hub.spawn(task, name='api%s' % cid)
         return cid
 
     def app_send(self, slot):
@@ -971,6 +971,46 @@ class AsyncWorld(World):
     def set_time(self, t):
         self.loop.vnow = t
         self.loop.quiesce()
+
+
+def blocked_signature(w, rec):
+    """Where a never-completed request / call is blocked, and on which kind of session."""
+    task = rec['task'] if isinstance(rec, dict) else getattr(rec, 'task', None)
+    where = '?'
+    q = None
+    if w.impl == 'sync':
+        b = getattr(task, 'blocked_on', None)
+        if b:
+            where = {'qjoin': 'queue.join', 'queue': 'queue.get', 'join': 'thread.join',
+                     'event': 'event.wait', 'sleep': 'sleep'}.get(b[0], b[0])
+            q = b[1] if len(b) > 1 else None
+    else:
+        try:
+            for fr in task.get_stack():
+                pass
+            coro = task.get_coro()
+            names = []
+            while coro is not None:
+                names.append(getattr(coro, '__qualname__', type(coro).__name__))
+                fr = getattr(coro, 'cr_frame', None)
+                if fr is not None and 'self' in fr.f_locals and \
+                        type(fr.f_locals['self']).__name__ == 'Queue' and \
+                        names[-1].endswith('join'):
+                    q = fr.f_locals['self']
+                coro = getattr(coro, 'cr_await', None)
+            if any(n.endswith('Queue.join') for n in names):
+                where = 'queue.join'
+            elif any(n.endswith('Queue.get') for n in names):
+                where = 'queue.get'
+            else:
+                where = names[-1] if names else '?'
+        except Exception as e:  # noqa
+            where = '?%r' % e
+    transport = '?'
+    for slot, so in w.socks.items():
+        if so is not None and so.queue is q:
+            transport = 'websocket' if so.upgraded else 'polling'
+    return {'in': where, 'transport': transport}
 
 
 def make_world(impl, cfg=None, seed=0, preempt=False):
